@@ -8,6 +8,7 @@ def run(ctx: Ctx) -> None:
     with ctx.parallel():  # every obligation of these tables builds its own environment: evaluated by worker processes
         T.run_identity(ctx)
         T.run_views(ctx)
+        T.run_derived_views(ctx)
         T.run_param_matrix(ctx)
         T.run_composites(ctx)
         S.run_transformers(ctx)
@@ -15,6 +16,7 @@ def run(ctx: Ctx) -> None:
     ctx.floor("T67.generic", 12)
     ctx.floor("T12.identity", 40)
     ctx.floor("T67.views", 20)
+    ctx.floor("T67.derived-views", 12)
     ctx.floor("T67.sequential", 10)
     ctx.floor("T67.warp", 12)
     ctx.floor("T67.pointset", 8)
